@@ -14,6 +14,8 @@ structure WordClass (w : Char → Bool) : Prop where
 
 theorem asciiWord_wordClass : WordClass asciiWord := ⟨by decide, by decide, by decide⟩
 
+theorem tagNameChar_wordClass : WordClass tagNameChar := ⟨by decide, by decide, by decide⟩
+
 theorem mem_takeWhile_true {p : Char → Bool} {l : Str} {c : Char} (h : c ∈ l.takeWhile p) : p c = true := by
   induction l with
   | nil => simp at h
